@@ -18,6 +18,8 @@ pub struct GGrid {
     /// as written in a Gravsoft file: row major from the first row, bands interleaved
     pub values: Vec<f32>,
     pub projected: bool,
+    /// vary the number formats and the layout of the text
+    pub fancy: bool,
 }
 
 impl GGrid {
@@ -33,7 +35,7 @@ impl GGrid {
         let lat_n = lat_s + dlat * (rows - 1) as f64;
         let lon_e = lon_w + dlon * (cols - 1) as f64;
         let values: Vec<f32> = (0..rows * cols * bands).map(|_| (r.range(-2000, 2000) as f32) / 16.0).collect();
-        GGrid { lat_n, lat_s, lon_w, lon_e, dlat, dlon, rows, cols, bands, values, projected }
+        GGrid { lat_n, lat_s, lon_w, lon_e, dlat, dlon, rows, cols, bands, values, projected, fancy: false }
     }
 
     /// node value (band b) at row i (from lat_n), column j, as the file writes it
@@ -48,13 +50,25 @@ impl GGrid {
         }
         // lat_s lat_n lon_w lon_e dlat dlon; a grid stored south-to-north lists lat_n first
         let (a, b) = if flipped { (self.lat_n, self.lat_s) } else { (self.lat_s, self.lat_n) };
-        t += &format!("{} {} {} {} {} {}", a, b, self.lon_w, self.lon_e, self.dlat, self.dlon);
+        if self.fancy && r.chance(1, 2) {
+            // header spread over lines, with comments in between
+            t += &format!("{:e} {}\n# extent\n {:.3}\t{:+} # longitudes\n{}\n{:E}", a, b, self.lon_w, self.lon_e, self.dlat, self.dlon);
+        } else {
+            t += &format!("{} {} {} {} {} {}", a, b, self.lon_w, self.lon_e, self.dlat, self.dlon);
+        }
         t += *r.pick(&["\n", "\n\n", "   # header\n", "\r\n"]);
         let rows: Vec<usize> = if flipped { (0..self.rows).rev().collect() } else { (0..self.rows).collect() };
         for i in rows {
             for j in 0..self.cols {
                 for b in 0..self.bands {
-                    t += &format!("{}", self.node(i, j, b));
+                    let v = self.node(i, j, b);
+                    t += &match r.below(if self.fancy { 6 } else { 1 }) {
+                        0 | 1 => format!("{}", v),
+                        2 => format!("{:e}", v),
+                        3 => format!("{:+}", v),
+                        4 => format!("{:.4}", v),
+                        _ => format!("{:E}", v),
+                    };
                     t += *r.pick(&[" ", " ", "  ", "\t"]);
                 }
             }
@@ -112,12 +126,52 @@ pub struct Sub {
     pub g: GGrid,
 }
 
-pub fn ntv2_encode(subs: &[Sub], be: bool) -> Vec<u8> {
+/// a sub-grid as written: header fields verbatim (arc seconds, longitude positive west), the
+/// declared node count and the node records actually present
+#[derive(Clone)]
+pub struct RawSub {
+    pub name: Vec<u8>,
+    pub parent: Vec<u8>,
+    pub s_lat: f64,
+    pub n_lat: f64,
+    pub e_long: f64,
+    pub w_long: f64,
+    pub lat_inc: f64,
+    pub long_inc: f64,
+    pub count: u32,
+    /// (lat shift, lon shift positive west)
+    pub nodes: Vec<(f32, f32)>,
+}
+
+pub fn raw_of(s: &Sub) -> RawSub {
+    let g = &s.g;
+    let mut nodes = vec![];
+    // nodes: from the south-east corner, westwards, then northwards
+    for i in (0..g.rows).rev() {
+        for j in (0..g.cols).rev() {
+            nodes.push((g.node(i, j, 0), -g.node(i, j, 1)));
+        }
+    }
+    RawSub {
+        name: s.name.as_bytes().to_vec(),
+        parent: s.parent.as_bytes().to_vec(),
+        s_lat: g.lat_s * 3600.0,
+        n_lat: g.lat_n * 3600.0,
+        e_long: -g.lon_e * 3600.0,
+        w_long: -g.lon_w * 3600.0,
+        lat_inc: g.dlat * 3600.0,
+        long_inc: g.dlon * 3600.0,
+        count: (g.rows * g.cols) as u32,
+        nodes,
+    }
+}
+
+pub fn ntv2_encode_raw(subs: &[RawSub], be: bool, num_file: u32, gs_type: &[u8]) -> Vec<u8> {
     let mut out = vec![];
     rec("NUM_OREC", &b_u32(11, be), &mut out);
     rec("NUM_SREC", &b_u32(11, be), &mut out);
-    rec("NUM_FILE", &b_u32(subs.len() as u32, be), &mut out);
-    rec("GS_TYPE", b"SECONDS ", &mut out);
+    rec("NUM_FILE", &b_u32(num_file, be), &mut out);
+    rec("GS_TYPE", gs_type, &mut out);
     rec("VERSION", b"NTv2.0  ", &mut out);
     rec("SYSTEM_F", b"ED50    ", &mut out);
     rec("SYSTEM_T", b"ETRS89  ", &mut out);
@@ -126,33 +180,34 @@ pub fn ntv2_encode(subs: &[Sub], be: bool) -> Vec<u8> {
     rec("MAJOR_T", &b_f64(6378137.0, be), &mut out);
     rec("MINOR_T", &b_f64(6356752.314, be), &mut out);
     for s in subs {
-        let g = &s.g;
-        let mut name = s.name.as_bytes().to_vec();
+        let mut name = s.name.clone();
         name.resize(8, b' ');
-        let mut parent = s.parent.as_bytes().to_vec();
+        let mut parent = s.parent.clone();
         parent.resize(8, b' ');
         rec("SUB_NAME", &name, &mut out);
         rec("PARENT", &parent, &mut out);
         rec("CREATED", b"20240101", &mut out);
         rec("UPDATED", b"20240101", &mut out);
-        rec("S_LAT", &b_f64(g.lat_s * 3600.0, be), &mut out);
-        rec("N_LAT", &b_f64(g.lat_n * 3600.0, be), &mut out);
-        rec("E_LONG", &b_f64(-g.lon_e * 3600.0, be), &mut out);
-        rec("W_LONG", &b_f64(-g.lon_w * 3600.0, be), &mut out);
-        rec("LAT_INC", &b_f64(g.dlat * 3600.0, be), &mut out);
-        rec("LONG_INC", &b_f64(g.dlon * 3600.0, be), &mut out);
-        rec("GS_COUNT", &b_u32((g.rows * g.cols) as u32, be), &mut out);
-        // nodes: from the south-east corner, westwards, then northwards
-        for i in (0..g.rows).rev() {
-            for j in (0..g.cols).rev() {
-                out.extend(b_f32(g.node(i, j, 0), be)); // latitude shift
-                out.extend(b_f32(-g.node(i, j, 1), be)); // longitude shift, positive west
-                out.extend(b_f32(0.0, be));
-                out.extend(b_f32(0.0, be));
-            }
+        rec("S_LAT", &b_f64(s.s_lat, be), &mut out);
+        rec("N_LAT", &b_f64(s.n_lat, be), &mut out);
+        rec("E_LONG", &b_f64(s.e_long, be), &mut out);
+        rec("W_LONG", &b_f64(s.w_long, be), &mut out);
+        rec("LAT_INC", &b_f64(s.lat_inc, be), &mut out);
+        rec("LONG_INC", &b_f64(s.long_inc, be), &mut out);
+        rec("GS_COUNT", &b_u32(s.count, be), &mut out);
+        for (a, b) in &s.nodes {
+            out.extend(b_f32(*a, be));
+            out.extend(b_f32(*b, be));
+            out.extend(b_f32(0.0, be));
+            out.extend(b_f32(0.0, be));
         }
     }
     out
+}
+
+pub fn ntv2_encode(subs: &[Sub], be: bool) -> Vec<u8> {
+    let raw: Vec<RawSub> = subs.iter().map(raw_of).collect();
+    ntv2_encode_raw(&raw, be, subs.len() as u32, b"SECONDS ")
 }
 
 pub fn hex(b: &[u8]) -> String {
@@ -233,11 +288,17 @@ pub fn random_tree(r: &mut Rng) -> Vec<Sub> {
 }
 
 pub fn generate_c08(g: &mut Gen, thorough: bool) {
-    let n = if thorough { 6000 } else { 600 };
+    gravsoft_cases(g, if thorough { 6000 } else { 600 }, false);
+    c08_rest(g, thorough);
+}
+
+/// well-formed Gravsoft grids: the model's decoding and look-ups, and the reference oracle
+pub fn gravsoft_cases(g: &mut Gen, n: usize, fancy: bool) {
     for k in 0..n {
         let bands = 1 + g.rng.below(3);
         let projected = k % 3 == 0;
-        let grid = GGrid::random(&mut g.rng, bands, projected);
+        let mut grid = GGrid::random(&mut g.rng, bands, projected);
+        grid.fancy = fancy;
         // (Gravsoft lists the southern border first, always: the interpolation supports that scan order only)
         let flipped = false;
         let text = grid.gravsoft(&mut g.rng, flipped);
@@ -262,6 +323,9 @@ pub fn generate_c08(g: &mut Gen, thorough: bool) {
             true,
         );
     }
+}
+
+fn c08_rest(g: &mut Gen, thorough: bool) {
     // lists of grids: overlaps, first hit, margin pass, null grid
     for _ in 0..(if thorough { 3000 } else { 300 }) {
         let k = 1 + g.rng.below(3);
@@ -295,10 +359,15 @@ pub fn generate_c08(g: &mut Gen, thorough: bool) {
         g.push(f.join("\t"), "grid-list", true);
         g.push(o.join("\t"), "oracle-grid-list", true);
     }
-    // NTv2 hierarchies
-    for _ in 0..(if thorough { 3000 } else { 300 }) {
+    ntv2_cases(g, if thorough { 3000 } else { 300 }, 3);
+    c08_ops(g, thorough);
+}
+
+/// well-formed NTv2 hierarchies in either byte order
+pub fn ntv2_cases(g: &mut Gen, n: usize, be_one_in: usize) {
+    for _ in 0..n {
         let subs = random_tree(&mut g.rng);
-        let be = g.rng.chance(1, 3);
+        let be = g.rng.chance(1, be_one_in);
         let bytes = ntv2_encode(&subs, be);
         let root = subs.iter().find(|s| s.parent == "NONE").unwrap();
         let mut q = queries(&mut g.rng, &root.g, 10);
@@ -318,6 +387,9 @@ pub fn generate_c08(g: &mut Gen, thorough: bool) {
         o.push(pts(&q));
         g.push(o.join("\t"), "oracle-ntv2", true);
     }
+}
+
+fn c08_ops(g: &mut Gen, thorough: bool) {
     // grid operators over lists of constant-valued grids: first hit, then first within the margin
     for i in 0..(if thorough { 2000 } else { 240 }) {
         let kind = ["gridshift", "deformation", "gridshift", "deformation", "deflection"][i % 5];
@@ -336,7 +408,7 @@ pub fn generate_c08(g: &mut Gen, thorough: bool) {
         let mut geoms = vec![];
         for j in 0..k {
             let v = (j + 1) as f32;
-            let gr = GGrid { lat_n: lat_s + d, lat_s, lon_w: lon, lon_e: lon + d, dlat: d, dlon: d, rows: 2, cols: 2, bands, values: vec![v; 4 * bands], projected: false };
+            let gr = GGrid { lat_n: lat_s + d, lat_s, lon_w: lon, lon_e: lon + d, dlat: d, dlon: d, rows: 2, cols: 2, bands, values: vec![v; 4 * bands], projected: false, fancy: false };
             f.push(crate::wire::escape(&gr.gravsoft(&mut g.rng, false)));
             f.push(format!("{},{},{},{},{},{}", fbits(gr.lat_n), fbits(gr.lat_s), fbits(gr.lon_w), fbits(gr.lon_e), fbits(gr.dlat), fbits(gr.dlon)));
             lon += d + *g.rng.pick(&[0.0, 0.3, 0.6, 0.8, 1.2, -0.5]);
@@ -362,5 +434,426 @@ pub fn generate_c08(g: &mut Gen, thorough: bool) {
         "gridshift grids=100800401.gsb",
     ] {
         g.push(format!("S_C08O\t{}", crate::wire::escape(def)), "oracle-operator", true);
+    }
+}
+
+
+// ----- C15: damaged files ---------------------------------------------------------
+
+const SHIPPED_SMALL: [(&str, &str); 7] = [
+    ("ntv2", "geodesy/gsb/5458.gsb"),
+    ("ntv2", "geodesy/gsb/5458_with_subgrid.gsb"),
+    ("gravsoftb", "geodesy/datum/test.datum"),
+    ("gravsoftb", "geodesy/datum/test_subset.datum"),
+    ("gravsoftb", "geodesy/geoid/test.geoid"),
+    ("gravsoftb", "geodesy/deformation/test.deformation"),
+    ("gravsoftb", "geodesy/deformation/another_test.deformation"),
+];
+
+fn repo_file(rel: &str) -> Vec<u8> {
+    let root = std::env::var("VERIF_REPO").unwrap_or_else(|_| "/repo".to_string());
+    std::fs::read(std::path::Path::new(&root).join(rel)).unwrap_or_default()
+}
+
+/// query points for a damaged file: around the area of the shipped test grids, plus extremes
+fn damaged_queries(r: &mut Rng, lat0: f64, lat1: f64, lon0: f64, lon1: f64) -> String {
+    let u = std::f64::consts::PI / 180.0;
+    let mut q: Vec<(f64, f64, &'static str)> = vec![];
+    for _ in 0..4 {
+        q.push((r.uniform(lon0, lon1) * u, r.uniform(lat0, lat1) * u, "in"));
+    }
+    q.push((lon0 * u, lat1 * u, "corner"));
+    q.push(((lon0 - 0.3) * u, (lat0 - 0.2) * u, "margin"));
+    q.push(((lon1 + 30.0) * u, (lat1 + 20.0) * u, "outside"));
+    q.push((*r.pick(&[f64::NAN, f64::INFINITY, -1e300, 0.0]), *r.pick(&[f64::NAN, f64::NEG_INFINITY, 1e300, 0.0]), "extreme"));
+    pts(&q)
+}
+
+/// one damaged file: as a correspondence case (the model predicts error class or values) and as a
+/// safety case (no panic, no hang, bounded allocation, safe queries and operator use)
+fn push_damaged(g: &mut Gen, fmt: &str, bytes: &[u8], class: &str, area: (f64, f64, f64, f64)) {
+    let q = damaged_queries(&mut g.rng, area.0, area.1, area.2, area.3);
+    let margin = *g.rng.pick(&[0.0, 0.5, 0.5, 3.0]);
+    g.push(format!("GRID\t{}\t{}\t{}\t{}", fmt, hex(bytes), fbits(margin), q), class, true);
+    g.push(format!("S_C15\t{}\t{}\t{}", fmt, hex(bytes), q), &format!("oracle-{class}"), true);
+}
+
+fn corrupt(r: &mut Rng, b: &[u8], header_len: usize) -> (Vec<u8>, &'static str) {
+    let mut v = b.to_vec();
+    if v.is_empty() {
+        return (v, "empty");
+    }
+    let n = v.len();
+    let hl = header_len.min(n);
+    match r.below(9) {
+        0 => {
+            // overwrite a run of bytes with noise
+            let at = r.below(n);
+            let len = 1 + r.below(12);
+            for i in at..(at + len).min(n) {
+                v[i] = r.below(256) as u8;
+            }
+            (v, "noise")
+        }
+        1 => {
+            // noise in a header
+            let at = r.below(hl.max(1));
+            let len = 1 + r.below(8);
+            for i in at..(at + len).min(n) {
+                v[i] = r.below(256) as u8;
+            }
+            (v, "noise-header")
+        }
+        2 => {
+            // delete a run
+            let at = r.below(n);
+            let len = 1 + r.below(40);
+            v.drain(at..(at + len).min(n));
+            (v, "delete")
+        }
+        3 => {
+            // insert noise
+            let at = r.below(n + 1);
+            let len = 1 + r.below(20);
+            let ins: Vec<u8> = (0..len).map(|_| r.below(256) as u8).collect();
+            v.splice(at..at, ins);
+            (v, "insert")
+        }
+        4 => {
+            // duplicate a region
+            let at = r.below(n);
+            let len = (1 + r.below(200)).min(n - at);
+            let dup = v[at..at + len].to_vec();
+            v.splice(at..at, dup);
+            (v, "duplicate")
+        }
+        5 => {
+            // a field of all ones / zeros (NaN, huge counts)
+            let at = r.below(hl.max(1)) / 8 * 8;
+            let fill = *r.pick(&[0u8, 0xff, 0x7f, 0x80]);
+            for i in at..(at + 8).min(n) {
+                v[i] = fill;
+            }
+            (v, "fill-field")
+        }
+        6 => {
+            // swap two regions
+            let a = r.below(n);
+            let c = r.below(n);
+            let len = (1 + r.below(16)).min(n - a.max(c));
+            for i in 0..len {
+                v.swap(a + i, c + i);
+            }
+            (v, "swap")
+        }
+        7 => {
+            // several single bit flips
+            for _ in 0..(2 + r.below(4)) {
+                let bit = r.below(n * 8);
+                v[bit / 8] ^= 1 << (bit % 8);
+            }
+            (v, "multi-flip")
+        }
+        _ => {
+            // append
+            let len = 1 + r.below(64);
+            v.extend((0..len).map(|_| r.below(256) as u8));
+            (v, "append")
+        }
+    }
+}
+
+fn crafted_gravsoft(r: &mut Rng) -> (String, &'static str) {
+    let cols = 2 + r.below(4);
+    let rows = 2 + r.below(3);
+    let bands = 1 + r.below(3);
+    let vals = |r: &mut Rng, n: usize| -> String { (0..n).map(|_| format!("{} ", r.range(-50, 50))).collect::<String>() };
+    let k = r.below(22);
+    let e3 = r.below(3);
+    match k {
+        0 => (format!("55 55 8 {} 1 1\n{}", 8 + cols - 1, vals(r, cols * bands)), "single-row"),
+        1 => (format!("54 {} 8 8 1 1\n{}", 54 + rows - 1, vals(r, rows * bands)), "single-column"),
+        2 => (format!("54 {} 8 {} 0 1\n{}", 54 + rows - 1, 8 + cols - 1, vals(r, rows * cols * bands)), "zero-dlat"),
+        3 => (format!("54 {} 8 {} 1 0\n{}", 54 + rows - 1, 8 + cols - 1, vals(r, rows * cols * bands)), "zero-dlon"),
+        4 => (format!("54 {} 8 {} 100 1\n{}", 54 + rows - 1, 8 + cols - 1, vals(r, cols * bands)), "dlat-exceeds-extent"),
+        5 => (format!("54 {} 8 {} -1 -1\n{}", 54 + rows - 1, 8 + cols - 1, vals(r, rows * cols * bands)), "negative-spacing"),
+        6 => (format!("{} 54 8 {} 1 1\n{}", 54 + rows - 1, 8 + cols - 1, vals(r, rows * cols * bands)), "reversed-lat"),
+        7 => (format!("54 {} {} 8 1 1\n{}", 54 + rows - 1, 8 + cols - 1, vals(r, rows * cols * bands)), "reversed-lon"),
+        8 => (format!("54 {} 8 {} {} 1\n{}", 54 + rows - 1, 8 + cols - 1, r.pick(&["nan", "inf", "-inf", "1e400", "x", "1e-400"]), vals(r, rows * cols * bands)), "nonfinite-header"),
+        9 => (format!("{} {} 8 {} 1 1\n{}", r.pick(&["nan", "inf", "1e308", "-1e308"]), 54 + rows - 1, 8 + cols - 1, vals(r, rows * cols * bands)), "nonfinite-extent"),
+        10 => (format!("54 {} 8 {} 1 1\n{}", 54 + rows - 1, 8 + cols - 1, vals(r, rows * cols * bands + 1 + e3)), "extra-values"),
+        11 => (format!("54 {} 8 {} 1 1\n{}", 54 + rows - 1, 8 + cols - 1, vals(r, (rows * cols * bands).saturating_sub(1 + e3))), "missing-values"),
+        12 => (format!("54 {} 8 {} 1 1\n{}", 54 + rows - 1, 8 + cols - 1, vals(r, rows * cols * (4 + e3))), "too-many-bands"),
+        13 => (format!("54 {} 8 {} 1 1\n", 54 + rows - 1, 8 + cols - 1), "no-values"),
+        14 => (format!("54 {} 8 {} 1\n", 54 + rows - 1, 8 + cols - 1), "short-header"),
+        15 => (format!("0 1e9 0 1e9 1e-3 1e-3\n{}", vals(r, 12)), "huge-dimensions"),
+        16 => (format!("0 1e300 0 1e300 1e-300 1e-300\n{}", vals(r, 12)), "overflowing-dimensions"),
+        17 => (
+            format!("54 {} 8 {} 1 1\n{}", 54 + rows - 1, 8 + cols - 1, (0..rows * cols * bands).map(|_| format!("{} ", r.pick(&["nan", "1e39", "-1e39", "inf", "garbage", "1e-50", "0x10", "1_0", ".5", "5.", "+.5e+1", "1e", "--1"]))).collect::<String>()),
+            "odd-values",
+        ),
+        18 => (format!("54\u{2003}{} 8\u{a0}{}\u{3000}1 1\u{85}{}", 54 + rows - 1, 8 + cols - 1, vals(r, rows * cols * bands).replace(' ', "\u{2009}")), "unicode-whitespace"),
+        19 => (format!("\u{feff}54 {} 8 {} 1 1\n{}", 54 + rows - 1, 8 + cols - 1, vals(r, rows * cols * bands)), "bom"),
+        20 => (format!("54 {} 8 {} 1 1\r{}\r", 54 + rows - 1, 8 + cols - 1, vals(r, rows * cols * bands)), "cr-only"),
+        _ => (format!("5.4e1 {} 8 {} 0.5 0.5\n{}", 54 + rows - 1, 8 + cols - 1, vals(r, (2 * rows - 1) * (2 * cols - 1) * bands)), "fine"),
+    }
+}
+
+fn crafted_ntv2(r: &mut Rng) -> (Vec<u8>, &'static str) {
+    let subs = random_tree(r);
+    let mut raw: Vec<RawSub> = subs.iter().map(raw_of).collect();
+    let be = r.chance(1, 2);
+    let mut num_file = raw.len() as u32;
+    let mut gs_type: &[u8] = b"SECONDS ";
+    let i = r.below(raw.len());
+    let cols = subs[i].g.cols;
+    let rows = subs[i].g.rows;
+    let class = match r.below(24) {
+        0 => {
+            raw[i].n_lat = raw[i].s_lat;
+            raw[i].count = cols as u32;
+            raw[i].nodes.truncate(cols);
+            "single-row"
+        }
+        1 => {
+            raw[i].w_long = raw[i].e_long;
+            raw[i].count = rows as u32;
+            raw[i].nodes.truncate(rows);
+            "single-column"
+        }
+        2 => {
+            raw[i].lat_inc = 0.0;
+            "zero-lat-inc"
+        }
+        3 => {
+            raw[i].long_inc = 0.0;
+            "zero-long-inc"
+        }
+        4 => {
+            raw[i].lat_inc = -raw[i].lat_inc;
+            "negative-lat-inc"
+        }
+        5 => {
+            raw[i].long_inc = -raw[i].long_inc;
+            "negative-long-inc"
+        }
+        6 => {
+            raw[i].lat_inc = *r.pick(&[1e-300, f64::NAN, f64::INFINITY, 1e300, -0.0]);
+            "odd-lat-inc"
+        }
+        7 => {
+            let t = raw[i].s_lat;
+            raw[i].s_lat = raw[i].n_lat;
+            raw[i].n_lat = t;
+            "reversed-lat"
+        }
+        8 => {
+            let t = raw[i].e_long;
+            raw[i].e_long = raw[i].w_long;
+            raw[i].w_long = t;
+            "reversed-long"
+        }
+        9 => {
+            raw[i].nodes.clear();
+            "no-nodes"
+        }
+        10 => {
+            let k = r.below(raw[i].nodes.len());
+            raw[i].nodes.truncate(k);
+            "missing-nodes"
+        }
+        11 => {
+            num_file += 1 + r.below(3) as u32;
+            "num-file-too-large"
+        }
+        12 => {
+            num_file = *r.pick(&[0, 0xffff_ffff, 0x8000_0000]);
+            "num-file-odd"
+        }
+        13 => {
+            num_file = num_file.saturating_sub(1);
+            "num-file-too-small"
+        }
+        14 => {
+            let other = (i + 1) % raw.len();
+            raw[i].name = raw[other].name.clone();
+            "duplicate-name"
+        }
+        15 => {
+            for s in raw.iter_mut() {
+                if s.parent == b"NONE" {
+                    s.parent = s.name.clone();
+                }
+            }
+            "root-is-own-parent"
+        }
+        16 => {
+            raw[i].name = b"NONE".to_vec();
+            "name-none"
+        }
+        17 => {
+            raw[i].name = vec![0xff, 0xfe, b'A'];
+            "name-not-utf8"
+        }
+        18 => {
+            // valid multi-byte UTF-8 with Unicode white space to trim
+            raw[i].name = "\u{a0}Å1".as_bytes().to_vec();
+            for s in raw.iter_mut() {
+                if s.parent == subs[i].name.as_bytes() {
+                    s.parent = "Å1\u{2003}".as_bytes().to_vec();
+                }
+            }
+            "name-unicode"
+        }
+        19 => {
+            gs_type = *r.pick(&[b"MINUTES " as &[u8], b"SECONDS\0", b"seconds "]);
+            "gs-type"
+        }
+        20 => {
+            raw[i].count = *r.pick(&[0, 0xffff_ffff, 1]);
+            "count-odd"
+        }
+        21 => {
+            // huge but consistent: the node count cannot be present
+            raw[i].n_lat = raw[i].s_lat + raw[i].lat_inc * 65535.0;
+            raw[i].w_long = raw[i].e_long + raw[i].long_inc * 65535.0;
+            raw[i].count = 0;
+            "huge-consistent-overflowing-count"
+        }
+        22 => {
+            raw[i].n_lat = f64::NAN;
+            "nan-extent"
+        }
+        _ => {
+            // a parent naming a grid that does not exist
+            raw[i].parent = b"NOSUCH".to_vec();
+            "unknown-parent"
+        }
+    };
+    (ntv2_encode_raw(&raw, be, num_file, gs_type), class)
+}
+
+pub fn generate_c15(g: &mut Gen, thorough: bool) {
+    // well-formed files: every layout, either byte order, any sub-grid order
+    gravsoft_cases(g, if thorough { 3000 } else { 200 }, true);
+    ntv2_cases(g, if thorough { 2000 } else { 150 }, 2);
+    let area = (54.0, 58.0, 8.0, 16.0);
+
+    // the shipped files: intact, every truncation length, every single bit flip in the headers
+    for (fmt, rel) in SHIPPED_SMALL {
+        let bytes = repo_file(rel);
+        let short = rel.rsplit('/').next().unwrap_or(rel).replace('.', "_");
+        push_damaged(g, fmt, &bytes, &format!("intact-{short}"), area);
+        let step = if thorough { 1 } else { 11 };
+        let mut len = 0;
+        while len < bytes.len() {
+            push_damaged(g, fmt, &bytes[..len], &format!("truncated-{short}"), area);
+            len += if thorough || len > 400 { step } else { 3 };
+        }
+        // bit flips: the two headers of an NTv2 file, the first lines of a Gravsoft file
+        let span = if fmt == "ntv2" { 352.min(bytes.len()) } else { 60.min(bytes.len()) };
+        let nbits = span * 8;
+        let take = if thorough { nbits } else { 120 };
+        for k in 0..take {
+            let bit = if thorough { k } else { g.rng.below(nbits) };
+            let mut v = bytes.clone();
+            v[bit / 8] ^= 1 << (bit % 8);
+            push_damaged(g, fmt, &v, &format!("bitflip-header-{short}"), area);
+        }
+        for _ in 0..(if thorough { 300 } else { 25 }) {
+            let bit = g.rng.below(bytes.len() * 8);
+            let mut v = bytes.clone();
+            v[bit / 8] ^= 1 << (bit % 8);
+            push_damaged(g, fmt, &v, &format!("bitflip-body-{short}"), area);
+        }
+        for _ in 0..(if thorough { 600 } else { 60 }) {
+            let (v, kind) = corrupt(&mut g.rng, &bytes, if fmt == "ntv2" { 352 } else { 60 });
+            push_damaged(g, fmt, &v, &format!("corrupt-{kind}"), area);
+        }
+    }
+    // the larger shipped files by name (the harness applies the damage itself)
+    for (rel, n) in [("geodesy/gsb/100800401.gsb", 25824usize), ("geodesy/deformation/eur_nkg_nkgrf17vel.deformation", 2826447)] {
+        g.push(format!("S_C15F\t{rel}\tid"), "oracle-large-intact", true);
+        for _ in 0..(if thorough { 60 } else { 6 }) {
+            let len = g.rng.below(n);
+            g.push(format!("S_C15F\t{rel}\ttrunc:{len}"), "oracle-large-truncated", true);
+            let bit = g.rng.below(if rel.ends_with("gsb") { 352 * 8 } else { 800 });
+            g.push(format!("S_C15F\t{rel}\tflip:{bit}"), "oracle-large-bitflip", true);
+        }
+    }
+    {
+        // the medium sized NTv2 file also through the model
+        let bytes = repo_file("geodesy/gsb/100800401.gsb");
+        let area = (39.0, 43.0, -1.0, 4.0);
+        push_damaged(g, "ntv2", &bytes, "intact-100800401_gsb", area);
+        for _ in 0..(if thorough { 200 } else { 12 }) {
+            let len = g.rng.below(bytes.len());
+            push_damaged(g, "ntv2", &bytes[..len], "truncated-100800401_gsb", area);
+            let bit = g.rng.below(352 * 8);
+            let mut v = bytes.clone();
+            v[bit / 8] ^= 1 << (bit % 8);
+            push_damaged(g, "ntv2", &v, "bitflip-header-100800401_gsb", area);
+        }
+    }
+    // generated files, damaged the same way
+    for _ in 0..(if thorough { 1500 } else { 120 }) {
+        let subs = random_tree(&mut g.rng);
+        let be = g.rng.chance(1, 2);
+        let bytes = ntv2_encode(&subs, be);
+        let root = &subs.iter().find(|s| s.parent == "NONE").unwrap().g;
+        let area = (root.lat_s, root.lat_n, root.lon_w, root.lon_e);
+        match g.rng.below(3) {
+            0 => {
+                let len = g.rng.below(bytes.len());
+                push_damaged(g, "ntv2", &bytes[..len], "truncated-generated-ntv2", area);
+            }
+            1 => {
+                let bit = g.rng.below(bytes.len().min(176 * (1 + subs.len())) * 8);
+                let mut v = bytes.clone();
+                v[bit / 8] ^= 1 << (bit % 8);
+                push_damaged(g, "ntv2", &v, "bitflip-generated-ntv2", area);
+            }
+            _ => {
+                let (v, kind) = corrupt(&mut g.rng, &bytes, 352);
+                push_damaged(g, "ntv2", &v, &format!("corrupt-{kind}"), area);
+            }
+        }
+    }
+    for _ in 0..(if thorough { 1500 } else { 120 }) {
+        let bands = 1 + g.rng.below(3);
+        let mut grid = GGrid::random(&mut g.rng, bands, false);
+        grid.fancy = true;
+        let text = grid.gravsoft(&mut g.rng, false);
+        let bytes = text.as_bytes();
+        let area = (grid.lat_s, grid.lat_n, grid.lon_w, grid.lon_e);
+        match g.rng.below(3) {
+            0 => {
+                let len = g.rng.below(bytes.len());
+                push_damaged(g, "gravsoftb", &bytes[..len], "truncated-generated-gravsoft", area);
+            }
+            1 => {
+                let bit = g.rng.below(bytes.len() * 8);
+                let mut v = bytes.to_vec();
+                v[bit / 8] ^= 1 << (bit % 8);
+                push_damaged(g, "gravsoftb", &v, "bitflip-generated-gravsoft", area);
+            }
+            _ => {
+                let (v, kind) = corrupt(&mut g.rng, bytes, 60);
+                push_damaged(g, "gravsoftb", &v, &format!("corrupt-{kind}"), area);
+            }
+        }
+    }
+    // files that are damaged consistently (header fields that agree with each other)
+    for _ in 0..(if thorough { 2000 } else { 200 }) {
+        let (text, class) = crafted_gravsoft(&mut g.rng);
+        push_damaged(g, "gravsoftb", text.as_bytes(), &format!("crafted-gravsoft-{class}"), area);
+    }
+    for _ in 0..(if thorough { 2000 } else { 240 }) {
+        let (bytes, class) = crafted_ntv2(&mut g.rng);
+        push_damaged(g, "ntv2", &bytes, &format!("crafted-ntv2-{class}"), (-20.0, 25.0, -40.0, 45.0));
+    }
+    // the ASCII twins of the shipped NTv2 files
+    for name in ["5458", "5458_with_subgrid"] {
+        g.push(format!("S_C15A\t{name}"), "oracle-gsa-twin", true);
     }
 }
